@@ -247,7 +247,7 @@ static int canary_ok(const garena *g)
     return 1;
 }
 
-static void prealloc_sweep(cJSON *s, int fmt, const char *text, long *first_ok)
+static void prealloc_sweep(cJSON *s, int fmt, const char *text, long *first_ok, int light)
 {
     size_t len = strlen(text);
     long n, maxn = (long)len + 16;
@@ -258,6 +258,11 @@ static void prealloc_sweep(cJSON *s, int fmt, const char *text, long *first_ok)
     *first_ok = -1;
     for (n = 0, xi = 0; ; n++) {
         int placement, nplace = CJV_PLAIN ? 2 : 1;
+        /* long texts: every n near both ends, sampled in between (the sweep is quadratic otherwise) */
+        if (len > 1500 && n > 48 && n < (long)len - 48) n = (long)len - 48;
+        /* light mode (C04/C05 only need "same bytes"): a handful of lengths around the text length */
+        if (light && n > 2 && n < (long)len - 1) n = (long)len - 1;
+        if (light && n > (long)len + 7 && n <= maxn) n = maxn + 1;
         if (n > maxn) { if (xi >= 2) break; n = extra[xi++]; }
         for (placement = 0; placement < nplace; placement++) {
             garena g;
@@ -288,7 +293,7 @@ void op_prbat(toks *t)
     long live0 = led.live_blocks;
     if (t->n < 3) cjv_fatal("prbat s mode");
     s = tk_item(t->tok[1]);
-    mode = (int)tk_int(t->tok[2]);   /* 1: non-finite numbers present (=> null); 2: skip reparse; 4: full prebuffer sweep */
+    mode = (int)tk_int(t->tok[2]);   /* 1: non-finite numbers present (=> null); 2: skip reparse; 4: full prebuffer sweep; 8: light prealloc sweep */
     if (!s) { rlog("prbat -"); return; }
     txt[0] = lib_print(s, 0);
     txt[1] = lib_print(s, 1);
@@ -314,7 +319,7 @@ void op_prbat(toks *t)
             if (strcmp(r, txt[fmt]) != 0) cjv_violation("print/buffered-differs", "PrintBuffered(prebuffer=%ld, fmt=%d) differs from the plain variant", p, fmt);
             lib_free(r);
         }
-        prealloc_sweep(s, fmt, txt[fmt], &first_ok[fmt]);
+        prealloc_sweep(s, fmt, txt[fmt], &first_ok[fmt], (mode & 8) != 0);
     }
     {   /* refusals of the caller-buffer variant */
         char tmp[8];
